@@ -4,6 +4,14 @@ import json, os
 HERE = os.path.dirname(os.path.dirname(os.path.abspath(__file__)))
 
 CHECKS = {
+ "C01": dict(cat="model_checking", ref="DESIGN.md §3 C01",
+   text="TLC explores every sequence of environment answers (convergence test, comparison of objective values, reduction-ratio class, residual comparison) of the trust-region state machine in TrustRegion.tla and proves Descent on accepted iterates, ReturnsLast and HonestFlag for the mechanism as coded (and exhibits the counterexample to NoUphillConvergence, finding F1). Every distinct ratio-class sequence on TLC's abstract state graph is replayed through a value-oracle proxy into the real trust_region_minimize under setting vectors that force each exit path; genuine solves of a seeded smooth family (convex, indefinite, singular, badly scaled, wiggly; exact/stale/identity preconditioner; incremental mode) are recorded through the public callback and a recording proxy; all traces are judged clause by clause by TrustRegionTrace.tla inside TLC. Right level: the guarantees are history properties of an iterative state machine driven by an environment.",
+   note="Trusted: dense sksparse shim; alpha in checks/trsolve.py (objective comparison exact on reported iterates, 64 eps allowance only on the convergence-exit report, gradient recomputed with the objective's own jitted functions); scripted replays check only clauses valid for arbitrary environments; model change assumed non-zero for non-zero steps (positive-model re-signing branch is not reachable with consistent derivatives and is covered at design level only). Known finding F1 (convergence exit bypasses acceptance) is reported as KNOWN-FINDING.",
+   tech="TLA+ mechanism+contract spec (TrustRegion.tla) + TLC exhaustive; spec->code replay via scripted value oracle; code->spec trace validation in TLC"),
+ "C05": dict(cat="model_checking", ref="DESIGN.md §3 C05",
+   text="TrustRegion.tla with Bounded=TRUE (same convergence-first/ratio/accept skeleton, one trial per outer iteration) checked exhaustively by TLC for Feasible, Descent, ReturnsLast, HonestFlag; BoxProjection.tla is an exact lattice model of the box projection (closest point, idempotent, in box, infinite and degenerate bounds) and of the project_onto_tr contract. TLC's ratio-class sequences are replayed through the value-oracle proxy into the real bound_constrained_trust_region_minimize on random boxes (finite, one-sided, degenerate; starts on faces and vertices); every lattice instance is replayed, scaled over 13 decades, into the real project/project_onto_tr with TLC as exact oracle; genuine solves (monotone and non-monotone SPG, iteration caps, radii) incl. convex quadratics compared with active-set enumeration; all traces judged by TrustRegionTrace.tla / BoxProjectionTrace.tla.",
+   note="Trusted: dense sksparse shim; alpha in checks/trsolve.py and checks/c05.py (box membership exact; ball membership of project_onto_tr within 1e-9 relative = brentq xtol; optimality measure recomputed as ||P(x-g)-x||); runs where find_generalized_cauchy_point raises RuntimeError are outside the contract and dropped (counted in evidence). Known finding F2 reported as KNOWN-FINDING.",
+   tech="TLA+ specs (TrustRegion.tla Bounded, BoxProjection.tla) + TLC exhaustive; scripted-oracle and lattice replay into the real code; trace validation in TLC"),
  "C20": dict(cat="model_checking", ref="DESIGN.md §3 C20",
    text="TLC exhaustively checks WellFormed/Idempotent/FileIsFunctionOfState on VTKWriter.tla (all op sequences to depth 5-6, three mesh shapes); every abstract writer state TLC reaches to depth 3 (quick) / 4 (thorough) plus seeded samples of further transitions and simulated deep behaviours is executed on the real VTKWriter for element orders 1-4, each file parsed by an independent reader and the abstract file records validated clause by clause by VTKWriterTrace.tla. Right level: the property is about call histories of a small stateful object, fully discrete.",
    note="Trusted: the independent VTK reader and alpha in checks/c20.py; meshes are the structured 2x2 patch at orders 1-4 (file structure depends on the mesh only through nOut/nEl/npe); float round-trip judged by exact equality of parsed text.",
